@@ -82,7 +82,7 @@ def run_case(case):
     def add(k, n=1):
         cnt[k] = cnt.get(k, 0) + int(n)
 
-    psets = [params, gen.perturb_params(rng, params), gen.perturb_params(rng, params)]
+    psets = [params, gen.perturb_params(rng, params, desc.get("frozen_params", ())), gen.perturb_params(rng, params, desc.get("frozen_params", ()))]
     inits = [gen.gen_initial_states(rng, ref, 8), gen.gen_initial_states(rng, ref, 5)]
     seeds = [3, 77]
     sim_args = [{"params": psets[int(rng.integers(0, 3))], "init": {k: np.asarray(v).tolist() for k, v in inits[i % 2].items()}, "seed": seeds[(i // 2) % 2]} for i in range(3)]
